@@ -626,6 +626,7 @@ def cases(ctx):
                    "ratio_lifting.RatioLifting"):
         for nl in (2, 3):
             yield ("handler", "lifting", scheme, nl, 1)
+            yield ("handler", "lifting", scheme, nl, 4)  # the same molecules across the periodic faces (seed C01-k)
     yield ("handler", "cellveto", "composite", (1.0, 2.0), (5, 4), 1)
     yield ("handler", "cellveto", "leaf", (1.0, 1.0), (4, 5), 1)
     # unit prefactors in boxes with L != 1: the budgets of the probe then exceed the energy of one box traversal / L
